@@ -160,19 +160,25 @@ def _asdict_anything(
         else:
             cf = list
 
-        rv = cf(
-            [
-                _asdict_anything(
-                    i,
-                    is_key=False,
-                    filter=filter,
-                    dict_factory=dict_factory,
-                    retain_collection_types=retain_collection_types,
-                    value_serializer=value_serializer,
-                )
-                for i in val
-            ]
-        )
+        items = [
+            _asdict_anything(
+                i,
+                is_key=False,
+                filter=filter,
+                dict_factory=dict_factory,
+                retain_collection_types=retain_collection_types,
+                value_serializer=value_serializer,
+            )
+            for i in val
+        ]
+        try:
+            rv = cf(items)
+        except TypeError:
+            if not issubclass(cf, tuple):
+                raise
+            # Workaround for TypeError: cf.__new__() missing 1 required
+            # positional argument (which appears, for a namedturle)
+            rv = cf(*items)
     elif isinstance(val, dict):
         df = dict_factory
         rv = df(
